@@ -72,8 +72,70 @@ fn extract<T: RealNumber>(p: usize, coef: &DenseMatrix<T>, intercept: T, pred_tr
     FitRes::Ok(Fitted { w, b: intercept.to_f64().unwrap(), pred_train, pred_probe })
 }
 
-/// Fits the model with both solvers (Direct first) and predicts on the training and probe matrices.
-fn fit_both_t<T: RealNumber>(xi: &XInfo, y: &[f64], model: Model) -> [FitRes; 2] {
+// ---- how the parameter struct is constructed (round-2 extension) -----------------------------------
+
+/// Ridge: ways 0..6 start from `Default::default()` and apply the three chained builder calls in the order
+/// `RIDGE_ORDERS[way]` (every permutation of {with_alpha, with_normalize, with_solver}); way 6 is the struct literal.
+pub const RIDGE_WAYS: usize = 7;
+pub const RIDGE_LITERAL: usize = 6;
+/// 'a' = with_alpha, 'n' = with_normalize, 's' = with_solver
+pub const RIDGE_ORDERS: [[char; 3]; 6] = [['a', 'n', 's'], ['a', 's', 'n'], ['n', 'a', 's'], ['n', 's', 'a'], ['s', 'a', 'n'], ['s', 'n', 'a']];
+/// Least squares: way 0 = `LinearRegressionParameters::default().with_solver(s)` (the only builder call there is),
+/// way 1 = struct literal.
+pub const OLS_WAYS: usize = 2;
+pub const OLS_BUILDER: usize = 0;
+
+pub fn way_name(ols: bool, way: usize) -> String {
+    let call = |c: &char| match c {
+        'a' => "with_alpha",
+        'n' => "with_normalize",
+        _ => "with_solver",
+    };
+    match ols {
+        true if way == OLS_BUILDER => "LinearRegressionParameters::default().with_solver(..)".to_string(),
+        true => "LinearRegressionParameters { solver }".to_string(),
+        false if way == RIDGE_LITERAL => "RidgeRegressionParameters { solver, alpha, normalize }".to_string(),
+        false => format!("RidgeRegressionParameters::default().{}(..)", RIDGE_ORDERS[way].iter().map(call).collect::<Vec<_>>().join("(..).")),
+    }
+}
+
+fn ridge_params<T: RealNumber>(way: usize, solver: &RidgeRegressionSolverName, alpha: T, normalize: bool) -> RidgeRegressionParameters<T> {
+    if way == RIDGE_LITERAL {
+        return RidgeRegressionParameters { solver: solver.clone(), alpha, normalize };
+    }
+    let mut p: RidgeRegressionParameters<T> = Default::default();
+    for call in RIDGE_ORDERS[way] {
+        p = match call {
+            'a' => p.with_alpha(alpha),
+            'n' => p.with_normalize(normalize),
+            _ => p.with_solver(solver.clone()),
+        };
+    }
+    p
+}
+
+fn ols_params(way: usize, solver: &LinearRegressionSolverName) -> LinearRegressionParameters {
+    if way == OLS_BUILDER {
+        LinearRegressionParameters::default().with_solver(solver.clone())
+    } else {
+        LinearRegressionParameters { solver: solver.clone() }
+    }
+}
+
+/// The parameter struct handed to `fit` must carry the REQUESTED configuration in its (public) fields, however it was
+/// constructed: otherwise the fitted model is that of another configuration (alpha, normalize: also seen by the
+/// gradient / intercept clauses) or the requested solver is never run (solver: invisible in the minimiser itself).
+fn lost(cx: &Ctx, comp: &str, field: &str, sname: &str, requested: String, found: String) {
+    mc::violation(
+        format!("{}.params-builder:{}-not-as-requested{}", comp, field, cx.sfx()),
+        format!("{} [requested solver {}]: the constructed parameters have {} = {} instead of the requested {}", (cx.label)(), sname, field, found, requested),
+    );
+}
+
+/// Fits the model with both solvers (Direct first) and predicts on the training and probe matrices. The parameter
+/// struct is constructed the `cx.way`-th way (see RIDGE_WAYS / OLS_WAYS).
+fn fit_both_t<T: RealNumber>(cx: &Ctx, model: Model) -> [FitRes; 2] {
+    let (xi, y, way) = (cx.xi, cx.y, cx.way);
     let x: DenseMatrix<T> = dm(&xi.x);
     let xp: DenseMatrix<T> = dm(&xi.probe);
     let yt: Vec<T> = vec_t(y);
@@ -83,7 +145,14 @@ fn fit_both_t<T: RealNumber>(xi: &XInfo, y: &[f64], model: Model) -> [FitRes; 2]
                 Solver::Direct => LinearRegressionSolverName::QR,
                 Solver::Svd => LinearRegressionSolverName::SVD,
             };
-            match mc::guard(|| LinearRegression::fit(&x, &yt, LinearRegressionParameters::default().with_solver(s))) {
+            let params = match mc::guard(|| ols_params(way, &s)) {
+                Ok(p) => p,
+                Err(p) => return FitRes::Panic(p),
+            };
+            if std::mem::discriminant(&params.solver) != std::mem::discriminant(&s) {
+                lost(cx, "ols", "solver", solver_name(model, solver), format!("{:?}", s), format!("{:?}", params.solver));
+            }
+            match mc::guard(|| LinearRegression::fit(&x, &yt, params)) {
                 Err(p) => FitRes::Panic(p),
                 Ok(Err(e)) => FitRes::Err(e.to_string()),
                 Ok(Ok(m)) => extract(xi.p, m.coefficients(), m.intercept(), pred_res(mc::guard(|| m.predict(&x))), pred_res(mc::guard(|| m.predict(&xp)))),
@@ -94,7 +163,21 @@ fn fit_both_t<T: RealNumber>(xi: &XInfo, y: &[f64], model: Model) -> [FitRes; 2]
                 Solver::Direct => RidgeRegressionSolverName::Cholesky,
                 Solver::Svd => RidgeRegressionSolverName::SVD,
             };
-            let params = RidgeRegressionParameters { solver: s, alpha: T::from(alpha).unwrap(), normalize };
+            let alpha_t = T::from(alpha).unwrap();
+            let params = match mc::guard(|| ridge_params::<T>(way, &s, alpha_t, normalize)) {
+                Ok(p) => p,
+                Err(p) => return FitRes::Panic(p),
+            };
+            let sname = solver_name(model, solver);
+            if std::mem::discriminant(&params.solver) != std::mem::discriminant(&s) {
+                lost(cx, "ridge", "solver", sname, format!("{:?}", s), format!("{:?}", params.solver));
+            }
+            if params.alpha != alpha_t {
+                lost(cx, "ridge", "alpha", sname, format!("{:?}", alpha_t), format!("{:?}", params.alpha));
+            }
+            if params.normalize != normalize {
+                lost(cx, "ridge", "normalize", sname, format!("{}", normalize), format!("{}", params.normalize));
+            }
             match mc::guard(|| RidgeRegression::fit(&x, &yt, params)) {
                 Err(p) => FitRes::Panic(p),
                 Ok(Err(e)) => FitRes::Err(e.to_string()),
@@ -104,10 +187,10 @@ fn fit_both_t<T: RealNumber>(xi: &XInfo, y: &[f64], model: Model) -> [FitRes; 2]
     })
 }
 
-pub fn fit_both(xi: &XInfo, y: &[f64], model: Model) -> [FitRes; 2] {
-    match xi.w {
-        W::F64 => fit_both_t::<f64>(xi, y, model),
-        W::F32 => fit_both_t::<f32>(xi, y, model),
+pub fn fit_both(cx: &Ctx, model: Model) -> [FitRes; 2] {
+    match cx.xi.w {
+        W::F64 => fit_both_t::<f64>(cx, model),
+        W::F32 => fit_both_t::<f32>(cx, model),
     }
 }
 
@@ -149,6 +232,8 @@ pub fn calib(key: &str, w: W, ratio: f64, ctx: &dyn Fn() -> String) {
 pub struct Ctx<'a> {
     pub xi: &'a XInfo,
     pub y: &'a [f64],
+    /// how the parameter struct is constructed (index into RIDGE_WAYS / OLS_WAYS)
+    pub way: usize,
     /// human-readable description of the input (built only when a violation is reported)
     pub label: &'a dyn Fn() -> String,
 }
@@ -316,7 +401,7 @@ fn observed(model: Model, ok: &[Option<&Fitted>; 2]) -> Observed {
 pub fn check_ols(cx: &Ctx) -> Observed {
     let xi = cx.xi;
     let (n, p, eps) = (xi.n as f64, xi.p, xi.w.eps());
-    let fits = fit_both(xi, cx.y, Model::Ols);
+    let fits = fit_both(cx, Model::Ols);
     let mut ok: [Option<&Fitted>; 2] = [None, None];
     let ynorm = dd::norm2(cx.y);
     let mut rnorms = [0.0; 2];
@@ -400,7 +485,7 @@ pub fn check_ridge(cx: &Ctx, alpha_nominal: f64, normalize: bool) -> Observed {
     if large_mean {
         mc::count("ridge_norm_on_large_mean_over_std");
     }
-    let fits = fit_both(xi, cx.y, model);
+    let fits = fit_both(cx, model);
     let mut ok: [Option<&Fitted>; 2] = [None, None];
     let ynorm = dd::norm2(cx.y);
     // the design the stated objective is taken over
